@@ -74,7 +74,7 @@ func bigDict(n, nulls int) pdf.Dict {
 
 // LimitKinds names the sweeps.
 var LimitKinds = []string{"", "names", "nesting", "reals-and-references", "filter-chain-length", "stale-decodeparms",
-	"object-numbers", "array-and-dict-size", "strings", "ccitt-rows"}
+	"object-numbers", "array-and-dict-size", "strings", "ccitt-rows", "wide-objects"}
 
 // limitValues: the values of a kind, each to be written in every position.
 func limitValues(kind int) []pdf.Object {
@@ -105,6 +105,47 @@ func limitValues(kind int) []pdf.Object {
 			pdf.Array{pdf.NewReference(limNumber-1, 0)}, pdf.Array{pdf.Reference(limNumber)}, pdf.Array{pdf.Reference(limNumber + 1)},
 			pdf.Dict{"R": pdf.Reference(math.MaxUint32)}, pdf.Dict{"R": pdf.Reference(uint64(limNumber) | 7<<32)},
 			pdf.Dict{"R": pdf.NewReference(limNumber-1, 65535)},
+		}
+	case 10:
+		// wide objects: hundreds of small containers side by side inside one object, followed by
+		// one more container (a reader that counts nesting must come back down after each)
+		wide := func(n int, mk func(i int) pdf.Object, last pdf.Object) pdf.Array {
+			a := make(pdf.Array, 0, n+1)
+			for i := 0; i < n; i++ {
+				a = append(a, mk(i))
+			}
+			return append(a, last)
+		}
+		wdict := func(n int, mk func(i int) pdf.Object) pdf.Dict {
+			d := pdf.Dict{}
+			for i := 0; i < n; i++ {
+				d[pdf.Name(fmt.Sprintf("K%03d", i))] = mk(i)
+			}
+			return d
+		}
+		emptyArr := func(int) pdf.Object { return pdf.Array{} }
+		emptyDict := func(int) pdf.Object { return pdf.Dict{} }
+		emptyStr := func(int) pdf.Object { return pdf.String("") }
+		null := func(int) pdf.Object { return nil }
+		small := func(i int) pdf.Object {
+			switch i % 4 {
+			case 0:
+				return pdf.Array{pdf.Integer(i)}
+			case 1:
+				return pdf.Dict{"a": pdf.Array{}}
+			case 2:
+				return pdf.Array{pdf.Array{pdf.Dict{}}}
+			}
+			return pdf.Array{}
+		}
+		return []pdf.Object{
+			wide(254, emptyArr, pdf.Array{pdf.Integer(1)}), wide(255, emptyArr, pdf.Array{pdf.Integer(1)}),
+			wide(256, emptyArr, pdf.Dict{"k": pdf.Array{}}), wide(700, emptyArr, pdf.Array{pdf.Array{pdf.Array{}}}),
+			wide(300, emptyDict, pdf.Dict{"k": pdf.Dict{}}), wide(300, emptyStr, pdf.Array{pdf.String("x")}),
+			wide(300, null, pdf.Array{nil}), wide(600, small, pdf.Array{pdf.Integer(2)}),
+			wdict(300, emptyArr), wdict(300, emptyDict), wdict(520, small),
+			pdf.Array{wide(260, emptyArr, pdf.Array{}), wdict(260, emptyArr), wide(260, small, pdf.Dict{})},
+			nestArr(200, wide(300, emptyArr, pdf.Array{pdf.Integer(3)})),
 		}
 	case 7:
 		return []pdf.Object{
@@ -347,6 +388,14 @@ func LimitSpecials(thorough bool) []Special {
 			}
 		}
 	}
+	for idx := 0; idx < NumLimitValues(10); idx++ {
+		for pos := 0; pos < 4; pos++ {
+			add(cfgs[(idx+pos)%len(cfgs)], Plan{Limit: 10, LimitIdx: idx, LimitPos: pos})
+			if thorough {
+				add(cfgs[(idx+pos+3)%len(cfgs)], Plan{Limit: 10, LimitIdx: idx, LimitPos: pos})
+			}
+		}
+	}
 	for i, cfg := range cfgs {
 		if i < 3 || thorough {
 			add(cfg, Plan{Limit: 4})
@@ -389,6 +438,42 @@ func LimitSpecials(thorough bool) []Special {
 	for pos := 0; pos < 10; pos++ {
 		if pos%5 == 0 || thorough {
 			add(Config{VIdx: 7}, Plan{Limit: 9, LimitPos: pos, NoModel: true})
+		}
+	}
+	return l
+}
+
+// infoCodePoints: every code point up to U+017F and the other characters of PDFDocEncoding, some
+// it does not have, and one outside the basic plane.
+func infoCodePoints() []rune {
+	var l []rune
+	for r := rune(0); r <= 0x17f; r++ {
+		l = append(l, r)
+	}
+	l = append(l, 0x192, 0x2c6, 0x2c7, 0x2d8, 0x2d9, 0x2da, 0x2db, 0x2dc, 0x2dd, 0x2013, 0x2014, 0x2018, 0x2019, 0x201a,
+		0x201c, 0x201d, 0x201e, 0x2020, 0x2021, 0x2022, 0x2026, 0x2030, 0x2039, 0x203a, 0x2044, 0x20ac, 0x2122, 0x2212,
+		0xfb01, 0xfb02, 0x2023, 0x20ab, 0x3b1, 0x65e5, 0xfeff, 0xfffd, 0x1f600)
+	return l
+}
+
+// InfoSpecials: every one of these characters alone in a text field of the Info dictionary, between
+// ASCII letters, and next to a character PDFDocEncoding does not have; seven fields per program;
+// judged by the direct oracle (what is read back is what was written).
+func InfoSpecials(thorough bool) []Special {
+	var l []Special
+	cps := infoCodePoints()
+	cfgs := []Config{{VIdx: 7}, {VIdx: 4, HR: true}, {VIdx: 8}, {VIdx: 6, Encrypt: true}, {VIdx: 3, Seek: true}, {VIdx: 8, HR: true, Encrypt: true}}
+	for i := 0; i < len(cps); i += 5 {
+		var tx []string
+		for k := 0; k < 5; k++ {
+			tx = append(tx, string(cps[(i+k)%len(cps)]))
+		}
+		c := cps[i]
+		tx = append(tx, "A"+string(c)+"z"+string(cps[(i+2)%len(cps)]), string(c)+"\u65e5"+string(cps[(i+3)%len(cps)]))
+		l = append(l, Special{cfgs[(i/5)%len(cfgs)], Plan{InfoTexts: tx, MaxOps: -1, NoModel: true}})
+		if thorough {
+			l = append(l, Special{cfgs[(i/5+1)%len(cfgs)], Plan{InfoTexts: tx, MaxOps: -1, NoModel: true}})
+			l = append(l, Special{cfgs[(i/5+2)%len(cfgs)], Plan{InfoTexts: tx, MaxOps: -1}})
 		}
 	}
 	return l
